@@ -4,10 +4,14 @@
 EXTENDS Naturals, Integers, Sequences, FiniteSets, TLC, Json, IOUtils, TLCExt
 Batch == JsonDeserialize(IOEnv.TRACE_FILE)
 Traces == Batch.traces
-VARIABLES tid, l, prev
+VARIABLES tid, l, prev, heard, heardL
+(* heard: the specification's OWN record of when each voter last answered (a next_node_idx reply processed by the   *)
+(* leader; everybody at the moment it became leader; a member at the moment the leader added it) - not read from    *)
+(* the implementation, whose lastResponseTime is only compared against it                                            *)
 Steps(t) == Traces[t].steps
 ToSet(q) == {q[k] : k \in 1..Len(q)}
-TInit == tid \in 1..Len(Traces) /\ l = 1 /\ prev = [role |-> "F", last |-> <<>>, now |-> 0]
+AllIds == {"a", "b", "c", "d", "e"}
+TInit == tid \in 1..Len(Traces) /\ l = 1 /\ prev = [role |-> "F", now |-> 0, others |-> {}] /\ heard = [m \in AllIds |-> 0] /\ heardL = [m \in AllIds |-> 0]
 Maj(cnt, voters) == 2 * cnt > voters
 TNext ==
   /\ l <= Len(Steps(tid)) /\ l' = l + 1 /\ tid' = tid
@@ -15,17 +19,29 @@ TNext ==
          F == Traces[tid].f
          oth == ToSet(e.others)
          nv == Cardinality(oth) + 1
-         heardBefore == {m \in oth : m \in DOMAIN prev.last /\ prev.last[m] > e.now - F}
+         heard1 == [m \in AllIds |->
+                      IF e.a = "Init" THEN e.now
+                      ELSE IF e.a = "Reply" /\ e.from = m /\ e.mt = "next_node_idx" /\ prev.role = "L" /\ m \in prev.others THEN e.now
+                      ELSE IF m \in oth /\ m \notin prev.others /\ e.a # "Init" THEN e.now      \* added as a member just now
+                      ELSE heard[m]]
+         heardBefore == {m \in oth : heard[m] > e.now - F}
          expRole == IF e.a = "Tick" /\ prev.role = "L" /\ ~Maj(1 + Cardinality(heardBefore), nv) THEN "F" ELSE
                     IF e.a = "Tick" THEN prev.role ELSE e.role
-         heardNow == {m \in oth : m \in DOMAIN e.last /\ e.last[m] > e.now - F}
-         hqExp == Maj(1 + Cardinality(oth \cap ToSet(e.conn)), nv)
-         d == IF e.a = "Tick" /\ prev.role = "L" /\ expRole # e.role THEN {"role"} ELSE {}
+         heardNow == {m \in oth : heard1[m] > e.now - F}
+         implLast == [m \in oth |-> IF m \in DOMAIN e.last THEN e.last[m] ELSE -1]
+         hqExp == Maj(1 + Cardinality(oth \cap ToSet(e.up)), nv)
+         d == (IF e.a = "Tick" /\ prev.role = "L" /\ expRole # e.role THEN {"role"} ELSE {})
+              \cup (IF e.role = "L" /\ \E m \in oth : implLast[m] # heard1[m] THEN {"lastResponseTime"} ELSE {})
          bad == (IF e.a = "Tick" /\ e.role = "L" /\ prev.role = "L" /\ ~Maj(1 + Cardinality(heardNow), nv) THEN {"C20.StepDownBound"} ELSE {})
                 \cup (IF e.hq # hqExp THEN {"C20.HasQuorumExact"} ELSE {})
-     IN /\ prev' = [role |-> e.role, last |-> e.last, now |-> e.now]
+                \* SUCCESS for a command the leader accepted at observation e.subL: a majority answered after that
+                \cup (IF e.a = "Ack" /\ ~Maj(1 + Cardinality({m \in AllIds : heardL[m] > e.subL}), Cardinality(prev.others \cup oth) + 1)
+                      THEN {"C20.NoSuccessWhileCutOff"} ELSE {})
+     IN /\ prev' = [role |-> e.role, now |-> e.now, others |-> oth]
+        /\ heard' = heard1
+        /\ heardL' = [m \in AllIds |-> IF e.a = "Reply" /\ e.from = m /\ e.mt = "next_node_idx" THEN l ELSE heardL[m]]
         /\ (d # {}) => PrintT(<<"DRIFT", tid, l, <<e.a>>, d>>)
         /\ (bad # {}) => PrintT(<<"VIOL", tid, l, <<e.a>>, bad>>)
         /\ (l = Len(Steps(tid))) => PrintT(<<"DONE", tid, 0, 0>>)
-TSpec == TInit /\ [][TNext]_<<tid, l, prev>>
+TSpec == TInit /\ [][TNext]_<<tid, l, prev, heard, heardL>>
 =============================================================================
